@@ -43,6 +43,7 @@ type Outcome struct {
 	Trace      []string         `json:"trace,omitempty"`
 	Sample     any              `json:"sample,omitempty"`
 	Infra      string           `json:"infra,omitempty"` // harness/infrastructure trouble (never a violation)
+	Leak       string           `json:"leak,omitempty"`  // goroutines left behind at the end of the run (C20's business)
 }
 
 // Prop is one property check hosted by a harness binary.
